@@ -26,6 +26,18 @@ package plookup
 //@ ghost nu = 0
 //@ ghost open1 = false
 //@ ghost open2 = false
+//@ ghost bind1 = false
+//@ ghost bind2 = false
+//@ ghost bind3 = false
+//@ ghost bind4 = false
+//@ cut before call deriveRandomness #1
+//@ + ghost bind1 = len(callarg2) == 4 && same(callarg2[0], &proof.t) && same(callarg2[1], &proof.f) && same(callarg2[2], &proof.h1) && same(callarg2[3], &proof.h2)
+//@ cut before call deriveRandomness #2
+//@ + ghost bind2 = len(callarg2) == 0
+//@ cut before call deriveRandomness #3
+//@ + ghost bind3 = len(callarg2) == 1 && same(callarg2[0], &proof.z)
+//@ cut before call deriveRandomness #4
+//@ + ghost bind4 = len(callarg2) == 1 && same(callarg2[0], &proof.h)
 //@ cut after call deriveRandomness #1
 //@ + ghost beta = callresult0
 //@ cut after call deriveRandomness #2
@@ -57,6 +69,7 @@ package plookup
 //@ ghost-final half = rexp(proof.g, proof.size / 2)
 //@ ensures[relation] isnil(result) ==> iszero(((ln*(h1 - h2s)*alpha + ln*(zz - 1))*alpha + l0*(zz - 1))*alpha + num - hh*zn)
 //@ ensures[openings] isnil(result) ==> open1 && open2
+//@ ensures[challenges-bind-the-commitments] isnil(result) ==> bind1 && bind2 && bind3 && bind4
 //@ ensures[generator] isnil(result) ==> !iszero(half - 1) && iszero(half*half - 1)
 //@ modifies nothing
 //@ end
